@@ -208,6 +208,10 @@ def run(ctx):
     ctx.rule("C04-IO", "samples read back from a file carry the same reference epoch (FITS epoch written as TCB MJD and read back as such; metadata restored) - shared with C12-PATHS.")
     from .C12 import check_paths
     check_paths(_Relabel(ctx, {"C12-PATHS": "C04-IO"}))
+    from .C12 import check_refuse
+    ctx.rule("C04-META", "an append that would pair rows with another file's reference epoch / model metadata is refused: metadata_conflicts stays 'error' on every path into the "
+                         "writer (shared with C12-REFUSE).")
+    check_refuse(_Relabel(ctx, {"C12-REFUSE": "C04-META"}))
     from .C15 import check_tref as c15_tref
     ctx.rule("C04-EPOCH", "the epoch the kernel uses (data._t_ref_bmjd) is the TCB MJD of the t_ref the samples carry; the data object arrives unchanged in worker processes "
                           "(shared with C15-TREF and C05-PICKLE).")
